@@ -9,6 +9,8 @@ for every item list / operation sequence (no bound on sizes).
 import ConfModel.Lemmas.RawBody
 import ConfModel.Lemmas.RawMerge
 import ConfModel.Lemmas.RawSeq
+import ConfModel.Lemmas.RawStack
+import ConfModel.Spec.RawStack
 import ConfModel.Spec.RawSeq
 import ConfModel.Model.RawRetry
 import ConfModel.Generated.C17Facts
@@ -444,5 +446,99 @@ theorem substitute_request_facts :
     Generated.C17Facts.subReqProbe.all (fun p => p.2.1 == false && p.2.2 == true) = true := by decide
 
 end Retry
+
+/-! ## The complete reference server: sequences of exchanges with one process -/
+
+section Stack
+open ConfModel.RawMerge ConfModel.RawSeq ConfModel.RawSeqSpec ConfModel.RawStack
+
+/-- **stack_history_independent.**  What the peer sees of an exchange with the complete
+reference server (CORS, raw responder, recorder, handler, `finish`, the encoders) is a function of
+that exchange alone: after any history of exchanges - raw responses with any headers, trailers and
+bodies, cut by `net/http` at any offset, normal responses, responses the server synthesised -
+and whatever scratch buffer, `rawResponseWriter` and header map the process still holds. -/
+theorem stack_history_independent (compress : Compress) (canon : String → String) (p : Proc) (hist : List Exch) :
+    (serveHist compress canon p hist).2 = hist.map (seenOf compress canon) :=
+  serveHist_seen compress canon hist p
+
+/-- spelled out for the exchange that follows a history: it shows exactly what it would show as
+the first exchange of a fresh process -/
+theorem stack_exchange_after_any_history (compress : Compress) (canon : String → String) (p : Proc)
+    (hist : List Exch) (x : Exch) :
+    (serveHist compress canon p (hist ++ [x])).2 =
+      (serveHist compress canon p hist).2 ++ [(serve compress canon {} x).2] := by
+  rw [serveHist_append, serveHist_seen compress canon [x]]; rfl
+
+/-- **stack_prescribed_raw_exact.**  An exchange whose response definition prescribes a raw
+response `d`, anywhere in any history, from any process state, whatever the handler would have
+done and whatever headers it would have set: the response is the raw responder's, its status is
+`d.status` (200 if unset), every header name other than `Date` / `Trailer` carries what CORS had
+put there for this request's `Origin` followed by exactly the given values in order, the trailers
+are the given ones, and the body is the specified one (cut where `net/http` stopped taking it). -/
+theorem stack_prescribed_raw_exact (compress : Compress) (canon : String → String) (p : Proc)
+    (hist : List Exch) (x : Exch) (d : RawDef) (h : x.prescribed = some d) :
+    ∃ s, (serveHist compress canon p (hist ++ [x])).2 = hist.map (seenOf compress canon) ++ [s] ∧
+      s.raw = true ∧ s.status = finishStatus d.status ∧ s.trailers = d.trailers ∧
+      s.body = (obsOf compress ⟨d.body, x.budget⟩).out ∧
+      (∀ k, k ≠ "Date" → k ≠ "Trailer" →
+        get s.headers k = get (corsActual [] x.origin) k ++ listed (d.headers.map fun q => (canon q.1, q.2)) k) ∧
+      s = seenOf compress canon { x with handler := [], handlerHdrs := [] } := by
+  refine ⟨seenOf compress canon x, ?_, ?_⟩
+  · rw [stack_history_independent]; simp
+  · rw [seenOf_prescribed compress canon x d h,
+        seenOf_prescribed compress canon { x with handler := [], handlerHdrs := [] } d h]
+    refine ⟨rfl, rfl, rfl, rfl, ?_, rfl⟩
+    intro k hD hT
+    exact raw_response_headers_exact canon [] _ d.headers d.trailers (corsActual_distinct x.origin) k hD hT
+
+/-- … so a well-formed stream body reaches the peer exactly as specified, after any history -/
+theorem stack_prescribed_stream_exact (compress : Compress) (canon : String → String) (p : Proc)
+    (hist : List Exch) (x : Exch) (d : RawDef) (items : List Item) (h : x.prescribed = some d)
+    (hb : d.body = .stream items) (hw : items.all (itemOk compress) = true) (hs : x.budget = none) :
+    ((serveHist compress canon p (hist ++ [x])).2.getLast?.map (·.body)) = some (streamBytes compress items) := by
+  rw [stack_history_independent]
+  simp [seenOf_prescribed compress canon x d h, hb, hs, obsOf, cut, writeStream_all_ok compress items hw]
+
+example : ((serveHist toyCompress id {} [⟨none, some ⟨204, [], [], .stream [⟨2, none, some ⟨some [7, 8, 9], 1⟩⟩]⟩, [], [], some 0⟩,
+      ⟨some "o", some ⟨0, [], [], .stream [⟨0, none, some ⟨some [1], 1⟩⟩]⟩, [], [], none⟩]).2.getLast?.map (·.body)) =
+    some [0, 0, 0, 0, 1, 1] ∧ [(⟨0, none, some ⟨some [1], 1⟩⟩ : Item)].all (itemOk toyCompress) = true := by decide
+
+/-- **stack_no_raw_handler_answers.**  An exchange whose definition prescribes no raw response and
+whose handler installs none shows the handler's answer - its status, its bytes, CORS' and its own
+headers - and nothing of any raw response served before. -/
+theorem stack_no_raw_handler_answers (compress : Compress) (canon : String → String) (p : Proc)
+    (hist : List Exch) (x : Exch) (h : x.prescribed = none) (hn : x.handler.all isHandler = true) :
+    (serveHist compress canon p (hist ++ [x])).2 = hist.map (seenOf compress canon) ++
+      [⟨false, handlerStatus (handlerEvents x.handler),
+        addAll (corsActual [] x.origin) (x.handlerHdrs.map fun q => (canon q.1, q.2)),
+        handlerBody (handlerEvents x.handler), []⟩] := by
+  rw [stack_history_independent]
+  simp only [List.map_append, List.map_cons, List.map_nil, List.append_cancel_left_eq, List.cons.injEq, and_true]
+  unfold seenOf serve
+  simp only [h, Option.map_none, recorded]
+  cases hx : x.handler with
+  | nil => simp [run, handlerEvents, handlerStatus, handlerBody]
+  | cons o t =>
+    have hh : isHandler o = true := by
+      rw [hx] at hn; simp only [List.all_cons, Bool.and_eq_true] at hn; exact hn.1
+    rw [run_handler_first o t hh]
+
+example : ([.writeHeader 200, .write [104]] : List Op).all isHandler = true := by decide
+
+/-- Non-vacuity, and the hazards: a raw response with `Vary` and a trailer behind CORS, cut by a
+204; a normal answer; the same raw response again - each shows its own definition only. -/
+example :
+    let d : RawDef := ⟨0, [("Vary", ["X-Custom"]), ("X-Raw-A", ["1"])], [("X-Trl", ["t"])], .stream [⟨2, none, some ⟨some [7, 8, 9], 1⟩⟩]⟩
+    let raw : Exch := ⟨some "https://o.example", some d, [("Server", ["ref"])], [.writeHeader 200, .write [104]], none⟩
+    let cutRaw : Exch := ⟨none, some { d with status := 204 }, [], [], some 0⟩
+    let normal : Exch := ⟨none, none, [("Server", ["ref"])], [.writeHeader 200, .write [104]], none⟩
+    let seen := (serveHist toyCompress id ⟨[8, 9], { started := true, raw := some ⟨503, [1]⟩ }, [("X-Old", ["leak"])]⟩ [cutRaw, raw, normal, raw]).2
+    seen.map (·.status) = [204, 200, 200, 200] ∧ seen.map (·.raw) = [true, true, false, true] ∧
+    seen.map (·.body) = [[], [2, 0, 0, 0, 3, 7, 8, 9], [104], [2, 0, 0, 0, 3, 7, 8, 9]] ∧
+    seen.map (fun s => get s.headers "Vary") = [["Origin", "X-Custom"], ["Origin", "X-Custom"], ["Origin"], ["Origin", "X-Custom"]] ∧
+    seen.map (fun s => get s.headers "Server") = [[], [], ["ref"], []] ∧
+    seen.map (fun s => get s.headers "X-Old") = [[], [], [], []] := by decide
+
+end Stack
 
 end ConfModel.Props.C17
